@@ -48,6 +48,7 @@ type c09Scenario struct {
 	JamDur            time.Duration
 	RetryDur          time.Duration
 	PreAlloc          int
+	KeepQueueOpen     bool
 	Submitters        [][]c09Sub
 
 	h            *Hist
@@ -106,6 +107,7 @@ func genC09(t *simrt.Tape, tier string) Scenario {
 	if t.Bool(1, 5) {
 		sc.PreAlloc = 1 + t.Choose(sc.Max+1)
 	}
+	sc.KeepQueueOpen = t.Bool(1, 3)
 	maxSub, maxJobs := 2, 6
 	if tier == "thorough" {
 		maxSub, maxJobs = 3, 12
@@ -168,6 +170,9 @@ func (sc *c09Scenario) Run(s *simrt.Sim) {
 		})
 		pool.SetWorkerSizeMaximum(sc.Max).SetWorkerSizeStandBy(sc.StandBy).SetWorkerBatchSize(sc.Batch).
 			SetSpawnWorkerDuration(sc.SpawnDur).SetWorkerExpiryDuration(sc.ExpiryDur).SetWorkerJamDuration(sc.JamDur).SetScheduleRetryInterval(sc.RetryDur)
+		if sc.KeepQueueOpen {
+			pool.SetIsJobQueueClosedWhenClose(false)
+		}
 	})
 	if sc.PreAlloc > 0 {
 		pool.PreAllocWorkerSize(sc.PreAlloc)
